@@ -186,6 +186,9 @@ def has_nan(x):
 
 
 def replay(witness, ctx):
+    if witness.get("fn") == "hand":
+        check_hand_models(ctx)
+        return
     model, loaded, obj = bc.from_witness(witness)
     try:
         check(ctx, model, witness["style"], loaded, obj, witness["factory"], witness["indent"], witness.get("as_list", False))
@@ -193,8 +196,40 @@ def replay(witness, ctx):
         loaded.unload()
 
 
+def check_hand_models(ctx):
+    """Unions of classes with the same keys and different field types (vf/props/c04_models.py)."""
+    from xsdata.formats.dataclass.context import XmlContext
+    from xsdata.formats.dataclass.parsers import DictDecoder, JsonParser
+    from xsdata.formats.dataclass.serializers import DictEncoder, JsonSerializer
+    from xsdata.formats.dataclass.serializers.dict import DictFactory
+
+    from vf.props import c04_models as M
+
+    for i, obj in enumerate(M.instances()):
+        for factory in ("dict", "filter_none"):
+            ff = DictFactory.FILTER_NONE if factory == "filter_none" else dict
+            ctx.case("hand", i, factory, nontrivial=True)
+            ctx.evals()
+            ctx.feature("hand:union-of-classes-with-shared-keys")
+            w = {"fn": "hand", "index": i, "factory": factory}
+            try:
+                enc = DictEncoder(dict_factory=ff, context=XmlContext()).encode(obj)
+                back = DictDecoder(context=XmlContext()).decode(json.loads(json.dumps(enc)), M.UnionHolder)
+                text = JsonSerializer(dict_factory=ff, context=XmlContext()).render(obj)
+                back2 = JsonParser(context=XmlContext()).from_string(text, M.UnionHolder)
+            except Exception as e:  # noqa: BLE001
+                ctx.violation(f"hand-model-raises/{factory}/{bc.short_exc(e)}", f"{type(e).__name__}: {e}\n{obj!r}", w)
+                continue
+            for route, b in (("dict", back), ("json", back2)):
+                d = deep_eq(obj, b)
+                if d:
+                    ctx.violation(f"roundtrip-mismatch/hand/{route}/{factory}", f"{d}\n{obj!r}\n-> {enc}\n-> {b!r}", w)
+
+
 def run_shard(ctx):
     rng = ctx.rng
+    if ctx.shard == 0:
+        check_hand_models(ctx)
     n_models = ctx.per_shard(ctx.pick(12000, 250000))
     min_d = MIN_DISTINCT[ctx.tier] // ctx.nshards + 1
     k = 0
